@@ -4,7 +4,8 @@
    while unread bytes remain) over ONE segmentation `chunks` of the stream `concat chunks`; the
    theorems quantify over all segmentations, with no bound on stream length or chunk count. *)
 From OlaBase Require Import Bytes.
-From C10 Require Import Gen Model Lemmas ProofsRecv ProofsUsb ProofsRobe ProofsOpc ProofsAcn ProofsAcnRef Schedule ProofsSched ProofsSchedOpc ProofsOpcFast ProofsOpcReg ProofsRpc.
+From C10 Require Import Gen Model Lemmas ProofsRecv ProofsUsb ProofsRobe ProofsOpc ProofsAcn ProofsAcnRef Schedule ProofsSched ProofsSchedOpc ProofsOpcFast ProofsOpcReg ProofsRpc
+  ProofsRobeResync ProofsRobeDispatch ProofsAcnRoot.
 Local Open Scope N_scope.
 
 (* Side obligations: the constants regenerated from the headers are the numbers used by the
@@ -17,7 +18,10 @@ Theorem c10_consts :
   (ACN_HEADER_SIZE, ACN_PDU_BLOCK_SIZE, ACN_TWO_BYTES, ACN_THREE_BYTES, ACN_LFLAG_MASK, ACN_LENGTH_MASK,
    ACN_INITIAL_SIZE) = (12, 4, 2, 3, 128, 15, 500) /\
   (RPC_VERSION_MASK, RPC_SIZE_MASK, RPC_PROTOCOL_VERSION, RPC_MAX_BUFFER_SIZE) =
-    (15 * 2 ^ 28, 2 ^ 28 - 1, 1, 2 ^ 20).
+    (15 * 2 ^ 28, 2 ^ 28 - 1, 1, 2 ^ 20) /\
+  (ACN_VFLAG_MASK, ACN_HFLAG_MASK, ACN_CID_LENGTH, ACN_ROOT_VECTOR_SIZE, ACN_VECTOR_ROOT_NULL) =
+    (64, 32, 16, 4, 6) /\
+  ROBE_DISPATCH = [(17, 1); (19, 2); (5, 3)].
 Proof. repeat split; reflexivity. Qed.
 Print Assumptions c10_consts.
 
@@ -85,6 +89,40 @@ Proof.
 Qed.
 Print Assumptions c10_robe_bounds.
 
+(* Where the Robe framer resumes after a header it rejects (reference framer = what every partition
+   delivers, by c10_robe_chunk_free): an announced length over 522 drops exactly the four header
+   bytes — the next byte is rescanned, not swallowed as a header checksum; a legal length with a
+   wrong header checksum drops five bytes; any byte other than the start byte is skipped singly. *)
+Theorem c10_robe_resync : forall ty lo hi h b rest,
+  (522 < hi * 256 + lo -> ref_robe (165 :: ty :: lo :: hi :: rest) = ref_robe rest) /\
+  (hi * 256 + lo <= 522 -> (165 + ty + lo + hi) mod 256 <> h ->
+     ref_robe (165 :: ty :: lo :: hi :: h :: rest) = ref_robe rest) /\
+  (b <> 165 -> ref_robe (b :: rest) = ref_robe rest).
+Proof.
+  intros ty lo hi h b rest. split; [|split].
+  - exact (robe_resync_oversize ty lo hi rest).
+  - exact (robe_resync_bad_hcrc ty lo hi h rest).
+  - exact (robe_resync_noise b rest).
+Qed.
+Print Assumptions c10_robe_resync.
+
+(* The real RobeWidget on top of the framer: RobeWidgetImpl::HandleMessage switches on the label
+   (table ROBE_DISPATCH, regenerated from the source); with no RDM request pending only
+   HandleDmxFrame is observable.  Every partition yields the DMX deliveries of the reference framer's
+   frames, and a frame whose label has another handler or none (unknown label) is dropped without
+   affecting any other delivery. *)
+Theorem c10_robe_dispatch : forall (stream : list N) (chunks : list (list N)),
+  concat chunks = stream ->
+  (exists s out, feed r_recv r_init chunks = Done s out /\
+                 robe_dispatch [] out = robe_dispatch [] (ref_robe stream)) /\
+  (forall l pl a buf b, robe_handler l <> 3 ->
+     robe_dispatch buf (a ++ (l, pl) :: b) = robe_dispatch buf (a ++ b)).
+Proof.
+  intros stream chunks H. rewrite <- H. split; [exact (robe_dispatch_chunk_free chunks)|].
+  intros l pl a buf b Hl. exact (robe_dispatch_skip l pl Hl a buf b).
+Qed.
+Print Assumptions c10_robe_dispatch.
+
 (* Open Pixel Control (SocketReady after fix 02): for every stream of bytes (< 256) and every
    partition, the channel callbacks receive exactly the frames of the whole stream, in order — so
    back-to-back frames in one read are all delivered and a read ending inside the next frame loses
@@ -137,6 +175,31 @@ Theorem c10_acn_chunk_free : forall (stream : list N) (chunks : list (list N)),
 Proof. intros stream chunks H. rewrite <- H. exact (acn_chunk_free chunks). Qed.
 Print Assumptions c10_acn_chunk_free.
 
+(* A real RootInflator behind the transport (root_pdu = BaseInflator::InflatePDUBlock/InflatePDU with a
+   4-byte vector and the 16-byte CID header on the one PDU the transport passes): under every
+   partition the child inflators receive exactly what the root layer makes of the reference framer's
+   PDUs; a PDU whose vector has no registered child inflator, or that lacks the vector or header
+   flag (nothing to inherit: the fields are reset for every block), is dropped and affects nothing
+   else — it never invalidates the stream. *)
+Theorem c10_acn_root_chunk_free : forall (reg : N -> bool) (stream : list N) (chunks : list (list N)),
+  concat chunks = stream ->
+  exists s out, feed a_recv a_init chunks = Done s out /\
+                root_deliver reg out = root_deliver reg (ref_acn stream).
+Proof. intros reg stream chunks H. rewrite <- H. exact (acn_root_chunk_free reg chunks). Qed.
+Print Assumptions c10_acn_root_chunk_free.
+
+Theorem c10_acn_root_skip : forall (reg : N -> bool) b0 rest a pdu b,
+  (reg (be32 (drop (if lflag b0 then 3 else 2) (b0 :: rest))) = false -> root_pdu reg (b0 :: rest) = []) /\
+  (vflag b0 && hflag b0 = false -> root_pdu reg (b0 :: rest) = []) /\
+  (root_pdu reg (snd pdu) = [] -> root_deliver reg (a ++ pdu :: b) = root_deliver reg (a ++ b)).
+Proof.
+  intros reg b0 rest a pdu b. split; [|split].
+  - exact (root_pdu_unregistered reg b0 rest).
+  - exact (root_pdu_flags reg b0 rest).
+  - exact (root_deliver_skip reg a pdu b).
+Qed.
+Print Assumptions c10_acn_root_skip.
+
 (* Buffer growth: in every reachable state of a still valid stream the bytes held fit the
    allocation (<= 2 MB), the allocation ReadRequiredData makes before reading covers everything still
    outstanding (so no store is out of range: the model's None outcome is excluded by the theorem
@@ -158,6 +221,18 @@ Theorem c10_rpc_chunk_free : forall (ok : list N -> bool) (stream : list N) (chu
   exists s out, feed (p_recv ok) p_init chunks = Done s out /\ (out, p_closed s) = ref_rpc ok stream.
 Proof. intros ok stream chunks H. rewrite <- H. exact (rpc_chunk_free ok chunks). Qed.
 Print Assumptions c10_rpc_chunk_free.
+
+(* The OPC capacity window over a whole connection history (CheckSize made explicit): the buffer
+   size never drops below the initial 516 nor exceeds 65535 + 4, is always ahead of the bytes held,
+   and as soon as the 4-byte header of the frame being received is in the buffer it is at least
+   expected_size + 4, so the whole frame will fit — whatever frames came before on the connection. *)
+Theorem c10_opc_capacity : forall (reg : N -> bool) chunks f out,
+  bytes_ok (concat chunks) = true ->
+  feed (f_recv reg) f_init chunks = Done f out ->
+  516 <= f_cap f /\ f_cap f <= 65539 /\ f_off f < f_cap f /\
+  (4 <= f_off f -> o_expected (rev_append (f_rdata f) []) + 4 <= f_cap f).
+Proof. intros reg chunks f out Hb H. exact (opcf_capacity reg chunks f out Hb H). Qed.
+Print Assumptions c10_opc_capacity.
 
 (* Read schedules.  `run_sched` executes an arbitrary interleaving of `Arrive bytes` (data reaches
    the kernel buffer) and `Invoke` (the poller runs the on-data callback; it does so only while
@@ -249,3 +324,23 @@ Example c10_rpc_example :
   feed (p_recv ok) p_init [[0; 0; 0]; [16; 2; 0; 0; 16; 8]; [2; 1; 0; 0; 16; 255; 2; 0; 0; 16; 8; 1]] =
     Done {| p_hdr := []; p_exp := 0; p_rbody := [255]; p_cur := 1; p_closed := true |} [(2, [8; 2])].
 Proof. split; vm_compute; reflexivity. Qed.
+(* a 1024-byte frame early on the connection moves the window to 1028 and it stays there: the
+   600-byte frame that follows is received into the grown buffer, and its header read with a frame
+   still incomplete does not shrink it *)
+Example c10_opc_capacity_example :
+  let big := [0; 0; 4; 0] ++ repeat 7 1024 in
+  let nxt := [1; 0; 2; 88] ++ repeat 9 100 in
+  match feed (f_recv (fun _ => true)) f_init [big ++ nxt] with
+  | Done f out => (f_cap f, f_off f, length out, f_exp f) = (1028, 104, 1%nat, Some 600)
+  | _ => False
+  end.
+Proof. vm_compute. reflexivity. Qed.
+Example c10_robe_dispatch_example :
+  robe_dispatch [] [(5, [1; 2; 3]); (17, [9]); (200, [4]); (5, []); (5, [8])] =
+    [(5, [1; 2; 3]); (5, [1; 2; 3]); (5, [8])].
+Proof. vm_compute. reflexivity. Qed.
+Example c10_acn_root_example :
+  root_deliver (fun v => v =? 4)
+    [(0, [96; 23; 0; 0; 0; 4] ++ repeat 1 16 ++ [42]); (0, [96; 22; 0; 0; 0; 5] ++ repeat 1 16);
+     (0, [32; 22; 0; 0; 0; 4] ++ repeat 1 16)] = [(4, repeat 1 16 ++ [42])].
+Proof. vm_compute. reflexivity. Qed.
